@@ -51,7 +51,7 @@ def runs(tier: str, kinds=None) -> list[dict]:
     """The TLC runs of a tier: name, kinds, constants (python values)."""
     q = tier == 'quick'
     base = dict(ShiftCs=SHIFTS, NlMuPairs=ALL_PAIRS, CnlMuPairs=ALL_PAIRS, TopMus=('1', '2'), AlphaRows=ROWS, GVals=('1/2', '1', '3'),
-                OrdLabelSeqs=[(2, 9), (1, 3, 8), (4, 1, 7, 2)], OrdRs=('1',), OrdT1s=('1',), OrdRatios=('1',),
+                OrdLabelSeqs=[(2, 9), (1, 3, 8), (4, 1, 7, 2), (4, 3, 2, 1)], OrdRs=('1',), OrdT1s=('1',), OrdRatios=('1',),
                 PrbXs=('0',), PrbT1s=('0',), PrbDiffs=('0',), LabelSeqs=[L2], AVecs=[(1, 2)], Steps=1, Namings=list(NAMINGS.values()))
     out = []
 
@@ -65,7 +65,7 @@ def runs(tier: str, kinds=None) -> list[dict]:
         AVecs=[(1, 2), (3, 4), (1, 2, 2), (3, 4, 1), (1, 2, 2, 4)] if q else
         _full(2) + [(1, 2, 2), (3, 4, 1), (2, 3, 1), (4, 4, 3), (1, 1, 1), (1, 2, 2, 4), (3, 4, 2, 1), (2, 1, 3, 3), (4, 4, 4, 1)])
     add('ordered', ['ologit', 'oprobit'], 2,
-        OrdLabelSeqs=[(2, 9), (1, 3, 8), (4, 1, 7, 2)],
+        OrdLabelSeqs=[(2, 9), (1, 3, 8), (4, 1, 7, 2), (4, 3, 2, 1)],
         OrdRs=('1/2', '1', '3') if q else ('1/3', '1/2', '1', '2', '3', '4'),
         OrdT1s=('1/2', '2') if q else ('1/4', '1/2', '1', '2'),
         OrdRatios=('1', '3/2', '2') if q else ('1', '3/2', '2', '4'),
